@@ -208,13 +208,13 @@ PROPS["C05"] = {
               {"name": "crash-wal", "runs": {"quick": 60, "thorough": 1500}, "chunk": 10},
               {"name": "isolation", "runs": {"quick": 150, "thorough": 4000}, "chunk": 25},
               {"name": "isolation-wal", "runs": {"quick": 80, "thorough": 2000}, "chunk": 25}],
-    "rule": ("mode faults: one run = one transact/patch request with |I|,|D| drawn around the DISCOVERED chunk boundaries (doubling sweep + bisection on the number of INSERT/DELETE statements seen at the SQL seam), on a pre-state that contains the rows to delete and unrelated rows; "
+    "rule": ("mode faults: one run = one gRPC transact / REST patch request, or one direct Manager.WriteRelationTuples / DeleteRelationTuples call (the multi-tuple create / delete, without a handler transaction around it), with |I|,|D| drawn around the DISCOVERED chunk boundaries (doubling sweep + bisection on the number of INSERT/DELETE statements seen at the SQL seam), on a pre-state that contains the rows to delete and unrelated rows; "
              "the fault-free run fixes the N statements (BEGIN, mapping insert, every chunk, COMMIT) and the after-state; then for EVERY k<=N x {io,busy,badconn,full,ctx} the request is re-run from the restored pre-state with a fail-stop fault at statement k: state in {before, after}, before when an error was returned; "
              "then an invalid tuple (no subject / unknown namespace / unknown subject-set namespace) at every position (sampled for large requests, always including both sides of a chunk boundary); an L2 monitor requires one BEGIN, one COMMIT and every write statement on that connection. "
              "mode crash / crash-wal: file-backed SQLite (rollback journal / WAL); at every statement k all connections die and the database files are copied as a kill -9 would leave them; the copy is reopened: state in {before} (the commit had not run), and after a crash right after the acknowledgement: exactly after. "
              "mode isolation / isolation-wal (tier T): a writer toggling transact(insert X, delete Y) is parked before each of its statements while readers (REST list, gRPC list with paging, two checks) run to completion; the recorded history (event sequence numbers) is checked with porcupine against a two-state model. "
              "non-trivial = request touches >= 2 tuples (isolation: at least one read overlapped the transaction); distinct = hash of request shape and pre-state."),
-    "probes": ["probe_multi_chunk_insert", "probe_multi_chunk_delete", "failed_atomically", "invalid_positions", "fault_crash", "fault_crash_after_ack", "reads_during_transaction", "porcupine_ok"],
+    "probes": ["probe_multi_chunk_insert", "probe_multi_chunk_delete", "probe_direct_manager_call", "failed_atomically", "invalid_positions", "fault_crash", "fault_crash_after_ack", "reads_during_transaction", "porcupine_ok"],
     "real": REAL_S + ["SQLite file locking, rollback journal and WAL recovery (file-backed database in crash / isolation modes)", "porcupine v1.3.0 linearizability checker (isolation modes)"], "stub": STUB_S + ["crash = death of every connection + copy of the database files at that instant; power loss / torn pages / fsync lies are below any keto code and not modelled"],
     "fault_kinds": {"io": "statement returns an I/O error", "busy": "database is locked (pop retries)", "badconn": "driver.ErrBadConn", "full": "SQLITE_FULL", "ctx": "context.Canceled", "crash": "all connections die at statement k, files snapshotted"},
     "assumptions": ["fail-stop faults only: a 'commit succeeded but the ack was lost' fault without a crash is not injected (no implementation can satisfy 'unchanged when an error was returned' under it)", "isolation observed is SQLite's; keto's contribution (one transaction, every statement on the ctx connection) is what the monitor checks"],
